@@ -7,6 +7,7 @@ import (
 	"fmt"
 	"go/constant"
 	"go/types"
+	"os"
 	"sort"
 	"strings"
 
@@ -102,7 +103,8 @@ func configType(c *Ctx) *types.Named {
 // caller's choice. A timeout taken from ClientConfig must come from the field whose name carries
 // the role (Read.../Write...) the client's methods give the receiving field; and every
 // ClientConfig field is consumed by some store.
-func cfgStores(c *Ctx, r *Report, rule string, durations, funcs bool) {
+func cfgStores(c *Ctx, r *Report, rule string, durations, funcs bool, hooks ...bool) {
+	withHooks := len(hooks) > 0 && hooks[0]
 	conf := configType(c)
 	cst := conf.Underlying().(*types.Struct)
 	consumed := map[int]bool{}
@@ -119,6 +121,9 @@ func cfgStores(c *Ctx, r *Report, rule string, durations, funcs bool) {
 				want[i] = true
 			}
 			if _, isSig := ft.Underlying().(*types.Signature); funcs && isSig && (i == ci.asErr || i == ci.parse || strings.Contains(strings.ToLower(ci.st.Field(i).Name()), "dial")) {
+				want[i] = true
+			}
+			if withHooks && i == ci.hooks {
 				want[i] = true
 			}
 		}
@@ -153,6 +158,20 @@ func cfgStores(c *Ctx, r *Report, rule string, durations, funcs bool) {
 			for i := range cf {
 				consumed[i] = true
 			}
+			// a configured value must be applied whenever it is set: every condition the store is
+			// control-dependent on is computed from that same configuration field and constants only
+			if len(cf) == 1 {
+				for fi := range cf {
+					if why := impureGuard(storeAt(st), conf, fi); why != "" {
+						r.fail(rule, id, fmt.Sprintf("whether ClientConfig.%s is applied to %s depends on something other than that field being set", cst.Field(fi).Name(), fname), st.pos, why, "guard-not-pure:"+cst.Field(fi).Name())
+					} else {
+						r.ok(rule, id, fmt.Sprintf("ClientConfig.%s is applied to %s under conditions on that field alone", cst.Field(fi).Name(), fname), st.pos, true)
+					}
+				}
+			}
+			if st.field == ci.hooks {
+				continue // hooks may legitimately be nil; only the plumbing above is examined
+			}
 			// an option closure storing its own argument: the caller's explicit choice
 			src := st.val
 			if u, ok := src.(*ssa.UnOp); ok {
@@ -164,6 +183,9 @@ func cfgStores(c *Ctx, r *Report, rule string, durations, funcs bool) {
 			}
 			storeInstr := storeAt(st)
 			state := fr.blockIn[storeInstr.Block().Index]
+			if os.Getenv("MBDBG") != "" {
+				fmt.Fprintf(os.Stderr, "cfgStore %s.%s in %s cf=%v state=%s val=%s\n", spec.name, fname, st.fn.Name(), cf, state.String(), describeAV(fr.val(st.val)))
+			}
 			if len(state) == 0 {
 				r.ok(rule, id, fname+": store is unreachable", st.pos, false)
 				continue
@@ -211,7 +233,7 @@ func cfgStores(c *Ctx, r *Report, rule string, durations, funcs bool) {
 	for i := 0; i < cst.NumFields(); i++ {
 		ft := cst.Field(i).Type()
 		_, isSig := ft.Underlying().(*types.Signature)
-		if (durations && isDuration(ft)) || (funcs && isSig) {
+		if (durations && isDuration(ft)) || (funcs && isSig) || (withHooks && types.IsInterface(ft)) {
 			n++
 			if !consumed[i] {
 				missing = append(missing, cst.Field(i).Name())
@@ -512,4 +534,68 @@ func fieldAssertInvariants(c *Ctx) []assertInvariant {
 	}
 	c.assertInv = &out
 	return out
+}
+
+// impureGuard: for every If whose one branch (only) leads to the instruction, the condition's
+// backward slice may contain only constants, comparisons/conversions and loads of field fi of
+// the configuration struct. Returns a description of the first offending operand, or "".
+func impureGuard(in ssa.Instruction, conf types.Type, fi int) string {
+	b := in.Block()
+	for d := b.Idom(); d != nil; d = d.Idom() {
+		iff, ok := d.Instrs[len(d.Instrs)-1].(*ssa.If)
+		if !ok {
+			continue
+		}
+		dom0, dom1 := d.Succs[0].Dominates(b), d.Succs[1].Dominates(b)
+		if dom0 == dom1 {
+			continue // b is reached from both branches (or from neither exclusively)
+		}
+		other := d.Succs[0]
+		if dom0 {
+			other = d.Succs[1]
+		}
+		if other == b || blockReaches(other, b) {
+			continue // the branches rejoin before b: b does not depend on this test
+		}
+		var bad string
+		seen := map[ssa.Value]bool{}
+		var walk func(v ssa.Value, depth int)
+		walk = func(v ssa.Value, depth int) {
+			if bad != "" || v == nil || seen[v] || depth > 12 {
+				return
+			}
+			seen[v] = true
+			switch x := v.(type) {
+			case *ssa.Const:
+			case *ssa.FieldAddr:
+				if !types.Identical(deref(x.X.Type()), conf) || x.Field != fi {
+					bad = "reads " + x.String()
+				}
+			case *ssa.Field:
+				if !types.Identical(x.X.Type(), conf) || x.Field != fi {
+					bad = "reads " + x.String()
+				}
+			case *ssa.UnOp:
+				walk(x.X, depth+1)
+			case *ssa.BinOp:
+				walk(x.X, depth+1)
+				walk(x.Y, depth+1)
+			case *ssa.Convert:
+				walk(x.X, depth+1)
+			case *ssa.ChangeType:
+				walk(x.X, depth+1)
+			case *ssa.Phi:
+				for _, e := range x.Edges {
+					walk(e, depth+1)
+				}
+			default:
+				bad = "depends on " + v.String()
+			}
+		}
+		walk(iff.Cond, 0)
+		if bad != "" {
+			return bad
+		}
+	}
+	return ""
 }
